@@ -123,6 +123,16 @@ NEEDS6 = {
  "C12": "a position with a legal move, clock below 100 and only kings plus at most two minor pieces",
  "C13": "a pawn pinned on a diagonal whose en-passant capture lands on that diagonal between itself and its own king",
  "C20": "an orthodox board where the side to move has lost one castling right; display_uci_move of the remaining castle",
+ "C04": "is_legal of a king step in a position where the side to move is checked by a pawn and the square diagonally behind the king is free and safe",
+ "C05": "get_rook_moves_const (or the const in a `const` item) for a rook on the rim whose only blockers on a ray stand on the rim",
+ "C10": "a double push followed by null_move, compared with the parsed twin of the result (all components equal, hashes differ)",
+ "C11": "two boards that differ exactly in the side to move and an en-passant file a",
+ "C14": "null_move on a parsed board with half-move clock 100 and the side to move not in check",
+ "C15": "try_play of a legal move of a pinned piece towards its own king along the pin line",
+ "C16": "generate_moves_for with a mask that holds the castling rook's square but not the king's (Chess960, king next to the rook)",
+ "C17": "has / contains on a king batch whose destination set holds the castling rook squares (e1g1 / e1c1 accepted)",
+ "C18": "is_superset of two strictly comparable sets (FULL.is_superset(EMPTY))",
+ "C19": "a hand-built Move with from == to given to Display",
 }
 NEEDS7 = {
  "C01": "an accepted board where the mover holds a castling right and the enemy king is adjacent to a square of the king's castling path or its destination",
